@@ -13,11 +13,10 @@ Local Open Scope Z_scope.
     the clock reading is an argument of the creating operations), run by
     [Model.Ops.run] from the store of a new account [init5 t1..t5] (the five
     default mailboxes, each with its own clock reading).
-    [clean s h = true]: every step of [h] is in the hierarchy-free scope
-    ([flat_step]) and outside the one remaining finding class ([step_class]):
-    no (name, UIDVALIDITY) pair was handed out twice (UIDVALIDITY is the wall
-    clock second).  COPY, UID COPY, the Junk/NonJunk move and RENAME INBOX with
-    messages are INSIDE the theorems since the fix wave. *)
+    [clean s h = true]: every step of [h] is in scope ([flat_step]: hierarchy-
+    free names; a plain RENAME only onto a name the renamed row did not carry
+    before).  No finding class is left ([step_class] is constantly [None]); the
+    clock readings in the history are ARBITRARY integers. *)
 
 (** After every clean history: (name, UIDVALIDITY, UID) determines the message
     instance in the log of everything that was ever visible; every mailbox's
@@ -69,8 +68,20 @@ Theorem c03_uidnext_never_decreases : forall t1 t2 t3 t4 t5 h1 h2 n v x1 x2,
 Proof. exact c03_uidnext_never_decreases_l. Qed.
 Print Assumptions c03_uidnext_never_decreases.
 
+(** every UIDVALIDITY handed out to a new mailbox row (CREATE, implied creation by
+    a delivery, the target of RENAME INBOX) is above every UIDVALIDITY this store
+    has ever used with ANY name, and not below the clock reading [t] — for an
+    ARBITRARY clock (constant, even decreasing) *)
+Theorem c03_new_validity_above_all : forall s n t s' id n' v',
+  create_mailbox_row s n t = Some (s', id) -> In (n', v') (gused s) ->
+  exists m, In m (mboxes s') /\ mb_id m = id /\ mb_name m = n /\ v' < mb_validity m /\ t <= mb_validity m.
+Proof. exact new_validity_above_all_l. Qed.
+Print Assumptions c03_new_validity_above_all.
+
 (** a (name, UIDVALIDITY) pair that stopped existing (DELETE, RENAME away)
-    never exists again: when the name comes back it carries a new UIDVALIDITY *)
+    never exists again: when the name comes back it carries a new UIDVALIDITY.
+    No premise about the clock is left: [clean] only restricts the scope
+    (hierarchy-free; plain RENAME onto a name the same row did not carry before) *)
 Theorem c03_validity_fresh : forall t1 t2 t3 t4 t5 h1 h2 h3 n v,
   clean (init5 t1 t2 t3 t4 t5) (h1 ++ h2 ++ h3) = true ->
   (exists x, advertises (run h1 (init5 t1 t2 t3 t4 t5)) n v x) ->
@@ -79,19 +90,17 @@ Theorem c03_validity_fresh : forall t1 t2 t3 t4 t5 h1 h2 h3 n v,
 Proof. exact c03_validity_fresh_l. Qed.
 Print Assumptions c03_validity_fresh.
 
-(** APPENDUID tells the truth: in a state satisfying the invariant, the UID (and
-    UIDVALIDITY) announced by a successful APPEND is the UID under which the new
-    message (the message row just stored, a fresh instance) is then found in that
-    mailbox.  PARTIAL: the hypothesis on message ids (existing links refer to
-    message rows below the counter) holds in every reachable state but is not part
-    of [Inv]; it is stated, not discharged, here (see NOTES/C03.md). *)
-Theorem c03_appenduid_truthful_partial : forall s f fl s' v u,
-  Inv s -> (forall l, In l (links s) -> lk_msg l < next_msg s) ->
+(** APPENDUID tells the truth (sequential form): in a state satisfying the
+    invariant, the UID (and UIDVALIDITY) announced by a successful APPEND is the
+    UID under which the new message (the message row just stored, a fresh
+    instance) is then found in that mailbox. *)
+Theorem c03_appenduid_truthful : forall s f fl s' v u,
+  Inv s ->
   step s (OAppend f fl) = (s', RAppendUid v u) ->
   exists m l, In m (mboxes s') /\ In l (links s') /\ mb_name m = f /\ mb_validity m = v /\
               lk_mbox l = mb_id m /\ lk_uid l = u /\ lk_msg l = next_msg s /\ lk_gid l = gser s.
 Proof. exact appenduid_truthful_l. Qed.
-Print Assumptions c03_appenduid_truthful_partial.
+Print Assumptions c03_appenduid_truthful.
 
 (** ... and such an APPEND to an existing mailbox never fails (contrast with the
     class copy_stale_uidnext, where it answers NO) *)
@@ -121,16 +130,37 @@ Print Assumptions c03_inv_reachable.
 (** For EVERY such interleaving: if the APPEND answers APPENDUID v u, then u is the
     UID handed out to it, and the row it inserted (same ghost instance [g], the
     message row stored by this APPEND) is in the final state under exactly that
-    UID.  Hypothesis: message ids of existing links are below the message counter
-    (holds initially and is preserved by every writer command: [MsgInv_run]). *)
+    UID.  Premise: the store invariant [Inv] (which now includes "message ids of
+    existing links are below the message counter"); it holds of the empty store
+    and after every clean history ([c03_inv_reachable]). *)
 Theorem c03_appenduid_all_schedules : forall s mb fl e1 e2 e3 e4 s' v u ins,
-  (forall l, In l (links s) -> lk_msg l < next_msg s) ->
+  Inv s ->
   Forall (fun o => writer_ok mb o = true) (e1 ++ e2 ++ e3 ++ e4) ->
   append_sched_full s mb fl e1 e2 e3 e4 = (s', RAppendUid v u, ins) ->
   exists uid g l, ins = Some (uid, g) /\ u = uid /\ In l (links s') /\
                   lk_msg l = next_msg s /\ lk_mbox l = mb /\ lk_uid l = u /\ lk_gid l = g.
 Proof. exact appenduid_all_schedules_l. Qed.
 Print Assumptions c03_appenduid_all_schedules.
+
+(** the same from every state reached by a clean history of a new account *)
+Theorem c03_appenduid_all_schedules_reachable : forall t1 t2 t3 t4 t5 h mb fl e1 e2 e3 e4 s' v u ins,
+  clean (init5 t1 t2 t3 t4 t5) h = true ->
+  Forall (fun o => writer_ok mb o = true) (e1 ++ e2 ++ e3 ++ e4) ->
+  append_sched_full (run h (init5 t1 t2 t3 t4 t5)) mb fl e1 e2 e3 e4 = (s', RAppendUid v u, ins) ->
+  exists uid g l, ins = Some (uid, g) /\ u = uid /\ In l (links s') /\
+                  lk_msg l = next_msg (run h (init5 t1 t2 t3 t4 t5)) /\ lk_mbox l = mb /\ lk_uid l = u /\ lk_gid l = g.
+Proof. exact appenduid_all_schedules_reachable_l. Qed.
+Print Assumptions c03_appenduid_all_schedules_reachable.
+
+(** non-vacuity: a reachable state with copies, an expunge and a DELETE + CREATE in
+    the same second, and a schedule with four other writers *)
+Example c03_reachable_schedule_example :
+  clean (init 100) ex_hist = true /\
+  exists s' v g,
+    append_sched_full (run ex_hist (init 100)) 1 []
+       [ODeliver INBOX 0] [OAppend INBOX []] [OUidCopy 4 [UOne 2] INBOX] [OUidStore 4 [UOne 1] SAdd [NONJUNK]]
+    = (s', RAppendUid v 5, Some (5, g)) /\ length (links_in s' 1) = 7%nat.
+Proof. exact reachable_schedule_example. Qed.
 
 (** with no other writer the statement-level APPEND is the APPEND of the histories *)
 Theorem c03_append_sched_sequential : forall s f fl m,
@@ -160,21 +190,18 @@ Example c03_clean_example :
   length (glog (run h (init 100))) = 14%nat.
 Proof. vm_compute. repeat split. Qed.
 
-(** ---- refuted parts: raven's current code violates the statement ---------- *)
+(** ---- formerly refuted parts ---------------------------------------------------- *)
 
-(** (The refutations of the first round — COPY/UID COPY/Junk move allocating
+(** No refuted part is left.  (The refutations of the first round — COPY/UID COPY/Junk move allocating
     MAX(uid)+1 without advancing uid_next, RENAME INBOX resetting uid_next — are
     gone: the defects are repaired (fixes/c03-*.patch), the model follows the
     repaired code, and those operations are covered by the theorems above.  Their
-    witnesses are kept as a regression example.) *)
+    witnesses are kept as a regression example; the last one, DELETE + CREATE
+    within one clock second re-using the UIDVALIDITY, went with
+    fixes/c03-uidvalidity-seq.patch: the witness has both CREATEs at second 101.) *)
 Example c03_repaired_witnesses_fine :
   forallb (fun h => clean (init 100) h && spec_b (run h (init 100)))
-          [w_copy_stale; w_copy_reuse; w_move; w_rename_inbox] = true.
+          [w_copy_stale; w_copy_reuse; w_move; w_rename_inbox; w_same_second] = true.
 Proof. exact repaired_witnesses_fine. Qed.
 
-(** DELETE + CREATE within one clock second: same name, same UIDVALIDITY,
-    UID 1 denotes a second message *)
-Theorem c03_refuted_same_second :
-  exists h, classify (init 100) h = Some CSameSecond /\ ~ uid_functional (run h (init 100)).
-Proof. exact refuted_same_second. Qed.
-Print Assumptions c03_refuted_same_second.
+
